@@ -40,6 +40,7 @@ where
     let root2 = root.clone();
     let (out, sim) = simrt::run(cfg, move || {
         let (sim, _) = simrt::current().unwrap();
+        simrt::fsim::mark_client_thread();
         simrt::fsim::with_fs(sim, |fs| {
             fs.legal = simrt::fsim::LegalFaults {
                 short_write_per_mille: scn2.sim.short_write_pm,
